@@ -135,13 +135,16 @@ pub fn check_bytes(tree: &Tree, input: &[u8], l: &mut Local) -> CaseResult {
     let cj = || json!({"tree": tree, "input": hex(input)});
     let schema = schematree::to_owned_expected(tree);
     l.eval();
-    let (r, m) = measure(|| no_panic(|| postcard_dyn::from_slice_dyn(&schema, input)));
+    crate::runner::set_pending(&cj().to_string());
+    let (r, m) = crate::alloc::measure_limited(1 << 30, || no_panic(|| postcard_dyn::from_slice_dyn(&schema, input)));
+    crate::runner::clear_pending();
     let r = r.map_err(|p| fail("dyn-total", format!("from_slice_dyn panicked: {}", p), cj()).sig(format!("panic:{}", panic_site(&p))))?;
-    let bound = ALLOC_FACTOR * (input.len() + 1) * (tree.node_count() + 1);
+    // the JSON output repeats field / variant names (object keys), so the schema-dependent factor counts name bytes too
+    let bound = ALLOC_FACTOR * (input.len() + 1) * (tree.node_count() + 1) + 4 * tree.name_bytes() * (input.len() + 1);
     if m.bytes > bound {
         let f = fail(
             "dyn-total",
-            format!("from_slice_dyn on {} input bytes requested {} bytes (bound {} = {}*(len+1)*(schema nodes+1))", input.len(), m.bytes, bound, ALLOC_FACTOR),
+            format!("from_slice_dyn on {} input bytes requested {} bytes (bound {} = {}*(len+1)*(schema nodes+1) + 4*(len+1)*name bytes)", input.len(), m.bytes, bound, ALLOC_FACTOR),
             cj(),
         );
         return Err(if has_zw_seq(tree) { f.sig(SIG_ZW_SEQ) } else { f });
@@ -371,7 +374,7 @@ pub fn run(ctx: &Ctx) {
          Schema) x bytes {random, valid encodings, single-byte corruptions, truncations, length varints replaced by moderate claims \
          2^8..2^20 and huge ones} and x JSON {type-correct from generated values, near-miss single-node edits (wrong JSON type, \
          out-of-range number, missing/extra/renamed field, wrong arity), unrelated random JSON}. oracle: no panic from either \
-         function; from_slice_dyn requests <= 512*(len+1)*(schema nodes+1) bytes; whenever to_stdvec_dyn(s,j) == Ok(b): \
+         function; from_slice_dyn requests <= 512*(len+1)*(schema nodes+1) + 4*(len+1)*(bytes of names in the schema) bytes; whenever to_stdvec_dyn(s,j) == Ok(b): \
          from_slice_dyn(s,b) == Ok(j') and to_stdvec_dyn(s,j') == Ok(b). non-trivial = rejected input, accepted input with a \
          container, or near-miss JSON; distinct = hash(tree, input). the known findings (Seq of zero-width elements; Option of a \
          payload whose JSON is null; structs with duplicate field names) are excluded by construction and counted under excluded_known",
@@ -426,13 +429,82 @@ pub fn run(ctx: &Ctx) {
                     continue;
                 }
                 done += 1;
-                for c in [1u128 << 8, 1 << 12, 1 << 16, (1 << 20) - 1, 1 << 20, 1 << 40, u64::MAX as u128] {
+                for c in [1u128 << 8, 1 << 12, 1 << 16, (1 << 20) - 1, 1 << 20, 1 << 40, 1 << 60, 1 << 61, (1 << 61) + 1, 1 << 62, (1 << 62) + 1, 1 << 63, (1 << 63) + 2, u64::MAX as u128 / 3, u64::MAX as u128] {
                     check_bytes(&t, &mutate::replace_varint(&e, idx, c), l)?;
                 }
             }
             Ok(())
         },
     );
+    // fixed-width elements under hostile counts: count * width may wrap
+    {
+        let trees: Vec<Tree> = vec![
+            Tree::Seq(Box::new(Tree::F32)),
+            Tree::Seq(Box::new(Tree::F64)),
+            Tree::Seq(Box::new(Tree::U8)),
+            Tree::Seq(Box::new(Tree::Bool)),
+            Tree::Seq(Box::new(Tree::Tuple(vec![Tree::F32, Tree::F32]))),
+            Tree::Seq(Box::new(Tree::Seq(Box::new(Tree::F64)))),
+            Tree::Map(Box::new(Tree::String), Box::new(Tree::F64)),
+            Tree::Map(Box::new(Tree::F32), Box::new(Tree::F32)),
+            Tree::Tuple(vec![Tree::U8, Tree::Seq(Box::new(Tree::F32))]),
+            Tree::Option(Box::new(Tree::Seq(Box::new(Tree::F64)))),
+            Tree::String,
+            Tree::ByteArray,
+        ];
+        let mut claims: Vec<u128> = vec![];
+        for k in 28..64u32 {
+            claims.extend([(1u128 << k) - 1, 1u128 << k, (1u128 << k) + 1]);
+        }
+        claims.extend([u64::MAX as u128, u64::MAX as u128 - 3, u64::MAX as u128 / 4, u64::MAX as u128 / 4 + 1, u64::MAX as u128 / 8 + 1]);
+        let (trees, claims) = (&trees, &claims);
+        ctx.par_range("fixed-width-elements-hostile-counts", (trees.len() * claims.len() * 4) as u64, move |i, l| {
+            let i = i as usize;
+            let t = &trees[i % trees.len()];
+            let c = claims[(i / trees.len()) % claims.len()];
+            let extra = [0usize, 4, 8, 17][i / (trees.len() * claims.len())];
+            let lead: &[u8] = match t {
+                Tree::Tuple(_) => &[7],
+                Tree::Option(_) => &[1],
+                _ => &[],
+            };
+            let mut input = lead.to_vec();
+            input.extend(ref_encode(&crate::dynshape::Shape::U64, &crate::dynshape::Value::U(c)).unwrap().bytes);
+            input.extend(std::iter::repeat(0x3F).take(extra));
+            l.class("hostile-count-fixed-width");
+            check_bytes(t, &input, l)
+        });
+    }
+    // enums with more variants than fit one varint byte: every variant selected once
+    {
+        let widths = [127usize, 128, 129, 200, 255, 256, 257, 300];
+        let total: usize = widths.iter().sum();
+        ctx.par_range("wide-enums-every-variant", (total * 2) as u64, move |i, l| {
+            let mut k = i as usize % total;
+            let with_payload = i as usize >= total;
+            let mut w = 0;
+            for cand in widths {
+                if k < cand {
+                    w = cand;
+                    break;
+                }
+                k -= cand;
+            }
+            let tree = Tree::Enum(
+                "Op".into(),
+                (0..w).map(|v| (format!("Op{}", v), if with_payload { TData::Newtype(Box::new(Tree::U8)) } else { TData::Unit })).collect(),
+            );
+            let j = if with_payload { json!({ format!("Op{}", k): 7 }) } else { json!(format!("Op{}", k)) };
+            l.class("wide-enum-variant");
+            check_json(&tree, &j, false, l)?;
+            // the encoding the static codec would produce for this variant goes through the decoder without incident
+            let mut want = ref_encode(&crate::dynshape::Shape::U32, &crate::dynshape::Value::U(k as u128)).unwrap().bytes;
+            if with_payload {
+                want.push(7);
+            }
+            check_bytes(&tree, &want, l)
+        });
+    }
     let n = ctx.tier.pick(200_000, 2_000_000);
     ctx.par_proptest(
         "json",
